@@ -4,4 +4,4 @@ From LY Require Import Base Xsd XsdParse Rewrite.
 Extraction Language OCaml.
 Extraction "model_regex.ml"
   N.add N.mul N.div N.modulo N.sub Z.add Z.mul Z.opp Z.of_N Z.abs_N Z.sub Z.ltb
-  Rewrite.rewrite Rewrite.validate_patterns XsdParse.utf8_dec XsdParse.parse Xsd.matches XsdParse.xsd_match.
+  Rewrite.rewrite Rewrite.validate_patterns Rewrite.chain_patterns Rewrite.chain_type Rewrite.validate_string XsdParse.utf8_dec XsdParse.parse Xsd.matches XsdParse.xsd_match.
